@@ -26,7 +26,46 @@ func genC14Grammar(seed int) *gram.Grammar {
 	if seed%40 == 7 {
 		return gram.ChainGrammar(17 + seed%23) // more productions than any fixed-size table of the printer
 	}
-	return g.Example(seed)
+	gr := g.Example(seed)
+	if seed%6 == 4 {
+		graftNegatedNegationGroup(gr, seed/6)
+	}
+	return gr
+}
+
+// graftNegatedNegationGroup puts `~( (~x)* )` (the inner group with any modifier and bracket style, optionally with a
+// tail) in front of one production: the printer has to keep the parentheses that separate the two `~` (C14-r11m1).
+// The free generator reaches this shape in under 1% of the grammars.
+func graftNegatedNegationGroup(g *gram.Grammar, k int) {
+	var leaf *gram.Expr
+	var find func(e *gram.Expr)
+	find = func(e *gram.Expr) {
+		if e == nil || leaf != nil {
+			return
+		}
+		if e.Kind == gram.KLit || e.Kind == gram.KRef {
+			leaf = e
+			return
+		}
+		for _, kid := range e.Kids {
+			find(kid)
+		}
+	}
+	for _, p := range g.Prods {
+		find(p.Expr)
+	}
+	if leaf == nil || len(g.Prods) == 0 {
+		return
+	}
+	cp := func() *gram.Expr { c := *leaf; return &c }
+	var body *gram.Expr = gram.Not(cp())
+	if k%3 == 0 {
+		body = gram.Seq(body, cp())
+	}
+	grp := gram.Group([]string{"*", "?", "+", "!"}[(k/3)%4], body)
+	grp.Style = (k / 12) % 3
+	p := g.Prods[(k/36)%len(g.Prods)]
+	p.Expr = gram.Seq(gram.Not(grp), p.Expr)
 }
 
 func TestC14Emit(t *testing.T) {
